@@ -1737,7 +1737,11 @@ class DecimalValidator(SOValidator):
     def to_python(self, value, state):
         if value is None:
             return None
-        if isinstance(value, (int, long, Decimal, sqlbuilder.SQLExpression)):
+        if isinstance(value, (int, long)):
+            # SQLite holds an integral DECIMAL as INTEGER
+            # and hands back an int
+            return Decimal(value)
+        if isinstance(value, (Decimal, sqlbuilder.SQLExpression)):
             return value
         if isinstance(value, float):
             value = str(value)
